@@ -3,6 +3,7 @@
 #include "hcommon.h"
 #include "esl_alphabet.h"
 #include "esl_sq.h"
+#include "esl_msa.h"
 #include <math.h>
 
 static ESL_ALPHABET *A;
@@ -140,6 +141,26 @@ static void h_op(void)
     return;
   }
   if (!strcmp(op, "valtype")) { h_out("%s", h_status(esl_abc_ValidateType((int) h_argi("t", 0)))); return; }
+  if (!strcmp(op, "msaguess")) {
+    /* esl_msa_GuessAlphabet on a text-mode alignment: rows=<hex>,<hex>,... (equal lengths, NUL-free) */
+    const char *rs = h_arg("rows"); char *dup = strdup(rs ? rs : ""), *tok, *sv; int nrow = 0, i, type = -1, st; int64_t alen = -1, len;
+    unsigned char *rows[64]; ESL_MSA *msa;
+    for (tok = strtok_r(dup, ",", &sv); tok && nrow < 64; tok = strtok_r(NULL, ",", &sv)) {
+      rows[nrow] = h_unhex(tok, &len);
+      if (alen < 0) alen = len;
+      if (len != alen || (int64_t) strlen((char *) rows[nrow]) != len) { for (i = 0; i <= nrow; i++) free(rows[i]); free(dup); h_out("bad-op"); return; }
+      nrow++;
+    }
+    free(dup);
+    if (nrow == 0) { h_out("bad-op"); return; }
+    msa = esl_msa_Create(nrow, alen);
+    for (i = 0; i < nrow; i++) { char nm[16]; sprintf(nm, "s%d", i); esl_msa_SetSeqName(msa, i, nm, -1); memcpy(msa->aseq[i], rows[i], (size_t) alen + 1); free(rows[i]); }
+    msa->nseq = nrow;
+    st = esl_msa_GuessAlphabet(msa, &type);
+    h_out("%s type=%d", h_status(st), type);
+    esl_msa_Destroy(msa);
+    return;
+  }
   if (!A) { h_out("bad-op"); return; }
 
   if (!strcmp(op, "dump")) { dump_abc(); }
@@ -382,6 +403,26 @@ static void h_op(void)
     st = esl_sq_ReverseComplement(sq);
     h_out("%s seq=%s", h_status(st), h_hex(sq->seq, sq->n));
     esl_sq_Destroy(sq); free(s);
+  }
+  else if (!strcmp(op, "sqccount")) {
+    /* text-mode esl_sq_CountResidues: sq->abc set by the caller (as utest_CountResidues does), exact-size K-vector */
+    unsigned char *s = h_unhex(h_arg("hex") ? h_arg("hex") : "-", &n); ESL_SQ *sq; int st, k; float *f; char *b = NULL; size_t cap = 0, len = 0;
+    if ((int64_t) strlen((char *) s) != n) { free(s); h_out("bad-op"); return; }
+    sq = esl_sq_CreateFrom("x", (char *) s, NULL, NULL, NULL);
+    sq->abc = A;
+    f = malloc(sizeof(float) * (size_t) A->K); for (k = 0; k < A->K; k++) f[k] = 0.0f;
+    st = esl_sq_CountResidues(sq, (int) h_argi("start", 0), (int) h_argi("L", n), f);
+    b = bufcat(b, &cap, &len, h_status(st)); b = bufcat(b, &cap, &len, " f=");
+    for (k = 0; k < A->K; k++) { if (k) b = bufcat(b, &cap, &len, ","); b = bufcat(b, &cap, &len, fnum(f[k])); }
+    h_out("%s", b);
+    free(b); free(f); sq->abc = NULL; esl_sq_Destroy(sq); free(s);
+  }
+  else if (!strcmp(op, "dsqdup")) {
+    /* esl_abc_dsqdup (which calls esl_abc_dsqlen / esl_abc_dsqcpy); D may be NULL */
+    const char *lk = h_arg("L"); ESL_DSQ *dup = NULL; int st;
+    st = esl_abc_dsqdup(D, (lk && !strcmp(lk, "unknown")) ? -1 : DL, &dup);
+    if (dup) { h_out("%s dup=%s", h_status(st), h_hex(dup, DL + 2)); free(dup); }
+    else h_out("%s dup=null", h_status(st));
   }
   else h_out("bad-op");
 }
